@@ -26,7 +26,7 @@ ASSUMPTIONS = ['std() in the ratio mask amplitudes: sqrt is an abstract non-nega
                'rilling_stop replaced by its formula (C04 unit clause)']
 REQUIRED_CLASSES = ['iterated', 'two-imfs', 'mask:two-imfs']
 EXPECTED_LABELS = ['same-outcome', 'imf-equivariant', 'flag-invariant', 'sift-equivariant', 'mask-sift-equivariant']
-BUDGET_S = {'quick': 170, 'thorough': 900}
+BUDGET_S = {'quick': 170, 'thorough': 1200}
 OPTS = {'quick': {'sample_every': 9, 'path_wall_s': 12}, 'thorough': {'sample_every': 9, 'timeout_ms': 20000}}
 
 
@@ -68,6 +68,11 @@ def configs(tier):
                 out.append(cfg('mask', tr, mode=mode, freqs=[0.3, 0.125]))
             out.append(cfg('mask', 'x2', mode=mode, freqs='zc', nphases=2))
             out.append(cfg('mask', 'x1/2', mode=mode, freqs=[0.3, 0.125], nphases=2))
+        # the tier budget is strict: run the configurations that witness the required classes first
+        out.sort(key=lambda c: 0 if c[1]['fn'] != 'gni' else 1)
+        for c in out:
+            if c[1]['fn'] != 'gni':
+                c[1].setdefault('_budget_s', 60)
     return out
 
 
